@@ -86,7 +86,16 @@ class JaqalLexer(Lexer):
         return token
 
     def INT(self, token):
-        token.value = int(token.value)
+        try:
+            token.value = int(token.value)
+        except ValueError:
+            # Python limits the number of digits int() converts
+            raise JaqalParseError(
+                "<string>",
+                token.lineno,
+                self._compute_col(token.index),
+                "Integer literal too long",
+            ) from None
         return token
 
     def NUMBER(self, token):
